@@ -115,6 +115,8 @@ def check(fn, cls, s, draws, rec):
                 rec.violation("reconstruct", "from_value(%r).value = %r" % (v, r.value), case)
             return
         s1, s2 = s.seq1, s.seq2
+        if not (type(s1) is int and type(s2) is int):
+            rec.violation("component-fit", "%s seq1=%r seq2=%r are not plain integers" % (fn, s1, s2), case)
         if not (isinstance(v, int) and 0 <= v <= 1757):
             rec.violation("value-range", "%s value %r outside 0..1757 (draws %r)" % (fn, v, draws), case)
         if fn == "init":
